@@ -15,6 +15,7 @@ class Parser:
         Simplified model of interaction with the translator.
         """
         self._safety_check: bool = True
+        self._safety_check_has_been_changed: bool = True
         self._translation: Optional[str] = None
         self._entrypoint_cell: Optional[Cell] = None
         self._entrypoint_cell_has_been_changed: bool = True
@@ -30,6 +31,7 @@ class Parser:
             Parser.
         """
         self._safety_check = True
+        self._safety_check_has_been_changed = True
         return self
 
     def disable_safety_check(self) -> Parser:
@@ -40,6 +42,7 @@ class Parser:
             Parser.
         """
         self._safety_check = False
+        self._safety_check_has_been_changed = True
         return self
 
     def set_excel_file_path(self, excel_file_path: str) -> Parser:
@@ -82,7 +85,8 @@ class Parser:
             E2PyclSafetyException: If security check is enabled and suspicious fragments are found,
                 an exception will be thrown.
         """
-        if not self._excel_file_path_has_been_changed and not self._entrypoint_cell_has_been_changed:
+        if not self._excel_file_path_has_been_changed and not self._entrypoint_cell_has_been_changed \
+                and not self._safety_check_has_been_changed:
             return self
 
         if not self._excel_file_path:
@@ -105,6 +109,7 @@ class Parser:
 
         self._excel_file_path_has_been_changed = False
         self._entrypoint_cell_has_been_changed = False
+        self._safety_check_has_been_changed = False
 
         return self
 
